@@ -320,6 +320,11 @@ class Sim:
             crit = ScriptedCriteria()
             self.criteria[e["name"]] = crit
             mc.add_move(top, criteria=crit, name=e["name"])
+        self.tracker = None
+        if ens == "grand":
+            # a bare user move that is never scheduled: it receives the documented notifications (C05 oracle)
+            self.tracker = UserMove(True)
+            mc.add_move(self.tracker, criteria=ScriptedCriteria(), name="_tracker")
         self.current = None
         mc.yield_moves = lambda: iter([self.current])
         with warnings.catch_warnings():
@@ -399,6 +404,7 @@ class Sim:
             "labels": [o.labels.tolist() if hasattr(o, "labels") else None for o in self.objs],
             "presel": [[_n(getattr(o, "to_displace_labels", None)), _n(getattr(o, "to_delete_label", None)),
                         getattr(o, "to_add_atoms", None) is not None] for o in self.objs],
+            "template": None if self.template is None else {k: v.tolist() for k, v in sorted(self.mc.context.exchange_atoms.arrays.items())},
             "ctx": {"added": [int(i) for i in getattr(self.mc.context, "_added_indices", [])],
                     "deleted": [int(i) for i in getattr(self.mc.context, "_deleted_indices", [])],
                     "delta": int(getattr(self.mc.context, "particle_delta", 0)),
@@ -456,7 +462,7 @@ def model_line(case):
 def run_real(case, calc_factory=make_calc, hooks=None):
     """run every trial on the real code; returns snapshots, per-trial before/after full states"""
     sim = Sim(case, calc_factory)
-    out = {"snapshots": [], "outcomes": [], "before": [], "after": [], "rnglog": [], "consumed": []}
+    out = {"snapshots": [], "outcomes": [], "before": [], "after": [], "rnglog": [], "consumed": [], "extra": []}
     for tr in case["trials"]:
         before = sim.full_state()
         if hooks and "before" in hooks:
@@ -479,6 +485,17 @@ def run_real(case, calc_factory=make_calc, hooks=None):
         out["after"].append(sim.full_state())
         out["rnglog"].append(list(sim.rng.log))
         out["consumed"].append([len(sim.rng.log), sim.streams.nops, sim.streams.nchecks])
+        extra = {"displaced": [_n(getattr(ob, "displaced_labels", None)) if not isinstance(getattr(ob, "displaced_labels", None), list) else None
+                               for ob in sim.objs],
+                 "comp": {}, "notif": []}
+        for oid, top in sim.tops.items():
+            dl = getattr(top, "displaced_labels", None)
+            if isinstance(dl, list):
+                extra["comp"][str(oid)] = {"displaced": [_n(x) for x in dl], "nmoved": int(top.number_of_moved_particles)}
+        if sim.tracker is not None:
+            extra["notif"] = [n for n in sim.tracker.notifications]
+            sim.tracker.notifications = []
+        out.setdefault("extra", []).append(extra)
         if hooks and "after" in hooks:
             hooks["after"](sim, tr, o, out)
     out["sim"] = sim
